@@ -552,7 +552,6 @@ func sameObject(a, b ssa.Value) bool {
 	return stores == 1
 }
 
-
 // isRefreshRX: a constant or the length of something (possibly merged by phis) — never a value carried over.
 func isRefreshRX(v *RX) bool {
 	if v == nil || v.Load != nil || v.X != nil {
